@@ -44,6 +44,7 @@ REQUIRED_THEOREMS = [
     "C12_scheduler_once_per_epoch", "C12_callbacks_container", "C12_batches_per_epoch", "C12_fit_args", "C12_session_stopped",
     "C12_protocol_no_batches", "C12_stop_at_epoch_start_no_batches", "C12_stop_at_train_start_no_batches",
     "C12_scheduler_once_per_epoch_no_batches", "C12_fit_args_no_rows", "C12_lambda_init", "C12_lambda_dispatch",
+    "C12_fit_args_abort",
 ]
 RULE = ("case = session on one state object (kind) of 1..3 consecutive fit calls, each call = (starting_epoch, epochs, N, "
         "pos_batch_size, neg_batch_size in {None, 0, < pos, = pos, > pos, >= N}, data container form (tensor dtypes, non-contiguous "
@@ -69,14 +70,19 @@ EXTRA_TRUSTED = [
 ]
 
 KINDS = ("pos", "cplx", "dens")
-NB_CHOICES = [(4, 4), (2, 5), (3, 2), (4, 2), (5, 2), (3, 1), (4, 1), (7, 2), (10, 3), (7, 3), (5, 3), (9, 4)]  # 1..4 batches
+NB_CHOICES = [(4, 4), (2, 5), (3, 2), (4, 2), (5, 2), (3, 1), (4, 1), (7, 2), (10, 3), (7, 3), (5, 3), (9, 4),  # 1..4 batches
+              (1, 1), (1, 3)]  # a single row (N = 1: one batch of one row; batch size = / > N)
 NB_EMPTY = [(0, 1), (0, 2), (0, 3)]  # no rows: zero batches per epoch (positive state, neg_batch_size falsy or = pos_batch_size)
 SLOTS = ("ts", "te", "es", "ee", "bs", "be")  # validation order of LambdaCallback.__init__
 SLOT_NAME = {"ts": "on_train_start", "te": "on_train_end", "es": "on_epoch_start", "ee": "on_epoch_end",
              "bs": "on_batch_start", "be": "on_batch_end"}
 SLOT_ARGS = {"ts": 1, "te": 1, "es": 2, "ee": 2, "bs": 3, "be": 3}  # arguments CallbackList passes (callback_list.py:60-82)
 DISPATCH_FORMS = ("pos", "def", "var")  # callable forms that accept the positional call CallbackList makes
-CB_FORMS = ("list", "tuple", "cblist", "iter")
+CB_FORMS = ("list", "tuple", "cblist", "iter", "cblist_mut")  # cblist_mut: a CallbackList built through its mutation API
+# documented defaults of `fit` (positive_wavefunction.py:194-210, complex_wavefunction.py, density_matrix.py, neural_state.py:500-520): a
+# run with `omit` leaves out every keyword argument whose VALUE is the documented default (the caller relies on the default)
+FIT_DEFAULTS = {"neg_batch_size": None, "k": 1, "progbar": False, "starting_epoch": 1, "time": False, "callbacks": None,
+                "scheduler": None, "scheduler_args": None, "input_bases": None}
 
 
 # ------------------------------------------------------------------ reference generator (independent of model and code)
@@ -335,6 +341,22 @@ def make_container(cb_list, form):
         return tuple(cb_list)
     if form == "cblist":
         return CallbackList(cb_list)
+    if form == "cblist_mut":
+        # the same order reached through append / insert / + / __setitem__ / reverse (callback_list.py:32-58, MutableSequence mixins)
+        if not cb_list:
+            return CallbackList([]) + CallbackList(())
+        out = CallbackList([cb_list[-1]])  # placeholder at index 0, overwritten below
+        out[0] = cb_list[0]
+        rest = list(cb_list[1:])
+        if rest:
+            mid = len(rest) // 2
+            for o in rest[mid:]:
+                out.append(o)
+            for o in reversed(rest[:mid]):
+                out.insert(1, o)
+        out.reverse()
+        out.reverse()
+        return CallbackList([]) + out
     if form == "iter":
         return iter(list(cb_list))
     return list(cb_list)
@@ -351,15 +373,25 @@ def empty_container(form):
     return torch.zeros(0, 2, dtype={"tensor_f32": torch.float32, "tensor_i64": torch.int64, "tensor_u8": torch.uint8}.get(form, torch.double))
 
 
-def make_data(kind, N, rng):
+def make_data(kind, N, rng, noz=False):
+    """`noz` (only the counted abort regime): no row is measured in the reference basis"""
     n = 2
     data = [[rng.randint(0, 1) for _ in range(n)] for _ in range(N)]
     bases = None
     if kind != "pos":
-        assert N >= 1, "no rows: only for the positive state (randint over an empty reference-basis set raises, C07)"
         bases = [[rng.choice("XYZ") for _ in range(n)] for _ in range(N)]
-        bases[rng.randrange(N)] = ["Z"] * n  # at least one reference-basis row (randint needs a non-empty range)
+        if noz:
+            for row in bases:
+                if row == ["Z"] * n:
+                    row[rng.randrange(n)] = rng.choice("XY")
+        else:
+            assert N >= 1, "no rows: only for the positive state (randint over an empty reference-basis set raises, C07)"
+            bases[rng.randrange(N)] = ["Z"] * n  # at least one reference-basis row (randint needs a non-empty range)
     return data, bases
+
+
+def count_z(bases):
+    return sum(1 for row in bases if all(c == "Z" for c in row)) if bases is not None else 0
 
 
 # ------------------------------------------------------------------ one case
@@ -388,6 +420,8 @@ def one_case(ctx, case):
 
     if "ctor" in case:
         return ctor_case(ctx, case)
+    if "abort" in case:
+        return abort_case(ctx, case)
     case = as_session(case)
     ctx.current_case = case
     kind, lam, runs = case["kind"], case["lambda"], case["runs"]
@@ -407,6 +441,8 @@ def one_case(ctx, case):
             if i not in objs:
                 specs[i] = obj_spec(case, i)
                 objs[i] = make_callback_spec(hold, i, specs[i])
+    # the data of every call (same stream as before: after the state, call by call); the model is told how many rows are in the reference basis
+    datas = [make_data(kind, run["N"], rng) for run in runs]
     model = None
     if ctx.driver is not None:
         # the model builds each object from its constructor arguments (QV.Train.lambdaInit / subclassObj), restricts the requests to
@@ -419,26 +455,26 @@ def one_case(ctx, case):
             else:
                 mobjs.append([i, {"kind": "subclass", "overrides": [None if f == "none" else fid_of(i, t) for t, f in zip(SLOTS, sp["forms"])]}])
         model = ctx.driver.call("c12.session", stop0=False, objs=mobjs, runs=[
-            {"pre": r["pre"], "start": r["start"], "epochs": r["epochs"], "N": r["N"], "posB": r["B"], "negB": r["neg"],
-             "hasBases": kind != "pos", "callbacks": {"form": r["cb_form"], "items": r["cbs"]}, "timer": r["time"],
+            {"pre": r["pre"], "start": r["start"], "epochs": r["epochs"], "N": r["N"], "nZ": count_z(d[1]), "posB": r["B"], "negB": r["neg"],
+             "hasBases": kind != "pos", "callbacks": {"form": r["cb_form"].replace("cblist_mut", "cblist"), "items": r["cbs"]}, "timer": r["time"],
              "hasSched": r["sched"], "req_cb": [[i, ev] for i, ev in r["inject_cb"]],
-             "req_mid": [[e, b] for e, b in r["inject_mid"] + r.get("inject_pre", [])]} for r in runs])
+             "req_mid": [[e, b] for e, b in r["inject_mid"] + r.get("inject_pre", [])]} for r, d in zip(runs, datas)])
     sess = {"stop": False, "container": None, "container_key": None, "nontriv": False, "sample": None, "fl": fl, "it": it, "optobjs": {}}
     ctx.count(f"calls_per_session={len(runs)}")
     for r_idx, run in enumerate(runs):
         m = None
         if model is not None:
             m = model["runs"][r_idx] if "runs" in model else {"error": model.get("error")}
-        one_call(ctx, {**case, "run": r_idx}, kind, st, rng, hold, objs, run, r_idx, sess, m, specs)
+        one_call(ctx, {**case, "run": r_idx}, kind, st, datas[r_idx], hold, objs, run, r_idx, sess, m, specs)
     ctx.case({k: case[k] for k in case if k != "dseed"}, nontrivial=sess["nontriv"], sample=sess["sample"])
 
 
-def one_call(ctx, case, kind, st, rng, hold, objs, run, r_idx, sess, m, specs):
+def one_call(ctx, case, kind, st, data_bases, hold, objs, run, r_idx, sess, m, specs):
     start, epochs, N, B, neg = run["start"], run["epochs"], run["N"], run["B"], run["neg"]
     cbs, timer, sched, pre = run["cbs"], run["time"], run["sched"], run["pre"]
     inj_cb, inj_mid, inj_pre = run["inject_cb"], run["inject_mid"], run.get("inject_pre", [])
     nb = -(-N // B)
-    data, bases = make_data(kind, N, rng)
+    data, bases = data_bases
     ordinal = lambda e, b: (e - start) * nb + b  # noqa: E731
     rec = _Recorder(inj_cb, [ordinal(e, b) for e, b in inj_mid], [ordinal(e, b) for e, b in inj_pre])
     active = lambda i, ev: specs[i]["forms"][SLOTS.index(ev[0])] != "none"  # noqa: E731  does callback i run user code for ev?
@@ -533,6 +569,14 @@ def one_call(ctx, case, kind, st, rng, hold, objs, run, r_idx, sess, m, specs):
     kwargs = {nm: v for nm, v in named[npos:] if nm != "scheduler_args"}
     if kind == "pos":
         kwargs["input_bases"] = None
+    if run.get("omit"):
+        # the caller relies on the documented defaults: every keyword argument whose value IS the default is left out
+        plain = {"neg_batch_size": neg, "k": kk, "progbar": progbar, "starting_epoch": start, "time": timer,
+                 "callbacks": (None if run["cb_form"] == "none" else cb_arg), "scheduler": (True if sched else None), "input_bases": bases_a}
+        for nm, v in plain.items():
+            if nm in kwargs and (v is None if FIT_DEFAULTS[nm] is None else (v is not None and v == FIT_DEFAULTS[nm])):
+                del kwargs[nm]
+                ctx.count(f"default_omitted:{nm}")
     values = [v for _, v in named]
     try:
         # a progress bar (progbar truthy, or -- `progbar is False` in the code -- a falsy object other than the singleton) goes to stderr
@@ -546,7 +590,7 @@ def one_call(ctx, case, kind, st, rng, hold, objs, run, r_idx, sess, m, specs):
     printed_lines = sum(1 for ln in buf.getvalue().splitlines() if ln.strip())
     final = {"stop": bool(st.stop_training), "ver": rec.opt_steps, "sched": rec.sched_steps}
     h_after = param_hash(st)
-    if run["cb_form"] in ("list", "tuple", "cblist"):  # frame: the caller's container still holds exactly the callbacks it listed
+    if run["cb_form"] in ("list", "tuple", "cblist", "cblist_mut"):  # frame: the caller's container still holds exactly the callbacks it listed
         ident_of = {id(o): i for i, o in objs.items()}
         after_items = [ident_of.get(id(o), f"foreign:{type(o).__name__}") for o in cb_arg]
         ctx.point("caller's callbacks container after the call", "aux", after_items, cbs, case, exact=True, sig=f"{kind}/fit/callbacks-container-frame")
@@ -858,6 +902,14 @@ def make_run(rng, start, epochs, N, B, cbs, timer, sched, icb, imid, pre, ipre=N
     return run
 
 
+def with_omissions(rng, case):
+    """final pass: in a third of the cases every call leaves out the keyword arguments whose value is the documented default"""
+    if "runs" in case and rng.random() < 0.34:
+        for run in case["runs"]:
+            run["omit"] = True
+    return case
+
+
 def gen_objs(rng):
     """callback objects with a SUBSET of the six handlers: LambdaCallback (handlers in the forms CallbackList can call) or
     CallbackBase subclass overriding only some methods; now and then no handler at all (`LambdaCallback()`)"""
@@ -923,9 +975,9 @@ def gen_cases(ctx, thorough):
     """every fit case carries the seeds of its argument-form streams (qc.Flags / qc.Ints); about one case in eight keeps plain Python values"""
     rng = ctx.rng
     for case in _gen_cases(ctx, thorough):
-        if "ctor" not in case and rng.random() < 0.875:
+        if "ctor" not in case and "abort" not in case and rng.random() < 0.875:
             case["fseed"], case["iseed"] = rng.randrange(2 ** 31), rng.randrange(2 ** 31)
-        yield case
+        yield with_omissions(rng, case)
 
 
 def _gen_cases(ctx, thorough):
@@ -973,6 +1025,62 @@ def _gen_cases(ctx, thorough):
         yield {"kind": "pos", "lambda": [True], "objs": gen_objs(rng), "dseed": rng.randrange(1 << 30),
                "runs": gen_session(rng, ncalls=rng.choice([1, 2]), empty_ok=True)}
     yield from gen_ctor_cases(rng, 600 if thorough else 90)
+    yield from gen_abort_cases(rng, 60 if thorough else 12)
+
+
+# ------------------------------------------------------------------ calls that raise inside `fit` (OUTSIDE the property: counted, never judged)
+def gen_abort_cases(rng, count):
+    """SCOPE: `fit` raises after `on_train_start` when `_shuffle_data` has nothing to draw the negative indices from -- bases given but no
+    reference-basis row in the data (complex / density state), or no rows at all with neg_batch_size != pos_batch_size (positive state) -- and
+    the epoch range is not empty.  An aborted call is not a "training run" of the property (like an exception raised by a callback): the
+    stream only COUNTS what happens (exception type, events seen) next to the model's `fitArgs` = .error / `fitArgsAbortLog`
+    (theorem C12_fit_args_abort); it produces no point and no oracle."""
+    for c in range(count):
+        kind = rng.choice(["pos", "cplx", "dens"])
+        start = rng.choice([1, 0, 3])
+        d = rng.choice([-1, 0, 0, 1, 2])
+        if kind == "pos":
+            N, B = 0, rng.choice([1, 2, 3])
+            neg = rng.choice([b for b in (1, 2, 3, 4) if b != B])
+        else:
+            N, B = rng.choice([(1, 1), (2, 2), (3, 2), (5, 2)])
+            neg = rng.choice([None, B, B + 1])
+        yield {"abort": {"kind": kind, "start": start, "epochs": start + d, "N": N, "B": B, "neg": neg,
+                         "cbs": rng.choice([[0], [0, 1], [1, 0, 1]]), "time": rng.random() < 0.5, "sched": rng.random() < 0.5},
+               "dseed": rng.randrange(1 << 30)}
+
+
+def abort_case(ctx, case):
+    import random
+
+    ctx.current_case = case
+    a = case["abort"]
+    rng = random.Random(case["dseed"])
+    st = make_state(a["kind"], rng)
+    data, bases = make_data(a["kind"], a["N"], rng, noz=True)
+    hold = _Holder()
+    rec = _Recorder([], [])
+    hold.rec = rec
+    objs = {i: make_callback_spec(hold, i, {"lam": i % 2 == 0, "forms": ["pos"] * 6}) for i in set(a["cbs"])}
+    err = None
+    kw = {} if bases is None else {"input_bases": np.array(bases)}
+    try:
+        with contextlib.redirect_stdout(io.StringIO()), contextlib.redirect_stderr(io.StringIO()):
+            st.fit(container(data, "tensor_f64") if a["N"] else empty_container("tensor_f64"), epochs=a["epochs"], pos_batch_size=a["B"],
+                   neg_batch_size=a["neg"], starting_epoch=a["start"], time=a["time"], callbacks=[objs[i] for i in a["cbs"]],
+                   optimizer=make_optimizer_class(rec, st), scheduler=(make_scheduler_class(rec) if a["sched"] else None), **kw)
+    except Exception as e:  # noqa: BLE001
+        err = type(e).__name__
+    seen = [[c[1], c[2]] for c in rec.log if c[0] == "call"]
+    ctx.count(f"abort_regime:kind={a['kind']},empty_range={a['epochs'] < a['start']},fit_raised={err}")
+    ctx.count("abort_regime:handler calls when fit raised=" + ("-" if err is None else "train-start only" if all(ev == ["ts"] for _, ev in seen) else "more"))
+    if ctx.driver is not None:
+        m = ctx.driver.call("c12.abort", pre=None, start=a["start"], epochs=a["epochs"], N=a["N"], nZ=count_z(bases), posB=a["B"], negB=a["neg"],
+                            hasBases=a["kind"] != "pos", callbacks={"form": "list", "items": a["cbs"]}, timer=a["time"], hasSched=a["sched"],
+                            req_cb=[], req_mid=[])
+        agree = (m.get("result") == "ok") == (err is None) and (err is None or seen == m.get("abortCalls"))
+        ctx.count(f"abort_regime:model={m.get('result')},agrees_with_implementation={agree}")
+    ctx.case(case, nontrivial=False, sample=None)
 
 
 # ------------------------------------------------------------------ LambdaCallback constructor stream
